@@ -573,7 +573,7 @@ CHECKS["C07"] = {
         "has no error member, and an error built from the reply otherwise",
         "(error kind) the four standard service error names map to their ErrorKind variant carrying the parameter when it is present "
         "and deserializes (else the empty string); every other reply maps to VarlinkErrorReply carrying the reply itself",
-        "outside: other threads sharing the connection (the RwLock is modelled as always available), Iterator::next, Drop, the "
+        "outside: other threads sharing the connection (the RwLock is modelled as always available), Drop, the "
         "generated client bindings (their own error enums), real sockets",
         "what is executed is the MIR rustc produces for the two functions, with the callee models listed under stubs",
     ],
@@ -724,7 +724,32 @@ _h_c05_client = [
       symbolic="send Ok or Err", bounds="all returning paths of the function (2)", stubs=C05_CLIENT_MODELS),
     [h for h in CHECKS["C07"]["harnesses"] if h["name"] == "c07_recv"][0],
 ]
+_h_modes = [
+    H("c04_oneway", engine="smt", script="c05_client.py", timeout=(600, 900),
+      functions=["varlink::MethodCall::oneway (rustc MIR)"],
+      symbolic="send Ok or Err", bounds="all returning paths of the function (1)", stubs=C05_CLIENT_MODELS),
+    H("c07_upgrade", engine="smt", script="c05_client.py", timeout=(600, 900),
+      functions=["varlink::MethodCall::upgrade (rustc MIR)"],
+      symbolic="send Ok or Err", bounds="all returning paths of the function (2)", stubs=C05_CLIENT_MODELS),
+]
 CHECKS["C05"]["harnesses"] = CHECKS["C05"]["harnesses"] + _h_c05_client
+# C04, client clause: oneway() returns after sending and never consumes a reply
+CHECKS["C04"]["harnesses"] = CHECKS["C04"]["harnesses"] + [_h_modes[0], [h for h in CHECKS["C07"]["harnesses"] if h["name"] == "c07_send"][0]]
+CHECKS["C04"]["assumptions"] = CHECKS["C04"]["assumptions"] + [
+    "client clause (z3 on the rustc MIR, one thread): MethodCall::oneway is exactly one send with the oneway flag and nothing else, "
+    "it never calls recv, and its outcome is the send's (c04_oneway); a send in oneway mode writes one flushed message carrying "
+    "oneway and leaves both stream halves in the connection, so no reply is consumed and the next call reads from where the "
+    "stream stood (c07_send). Confirmed natively on a real connection with two replies waiting: oneway(), then upgrade() and "
+    "call() receive the first and second reply",
+]
+# C07: the public entry points around send / recv
+CHECKS["C07"]["harnesses"] = CHECKS["C07"]["harnesses"] + _h_modes + _h_c05_client[:3]
+CHECKS["C07"]["assumptions"] = CHECKS["C07"]["assumptions"] + [
+    "entry points (c04_oneway, c07_upgrade, c05_call, c05_more, c05_next; send / recv as contract models there): oneway = one send "
+    "flagged oneway and no read; call / upgrade = one send with the flags of the mode, then exactly one read whose result is "
+    "returned, no read after a failed send; more = one send flagged more, the iterator armed; next = one read per item while "
+    "the flag is set",
+]
 CHECKS["C05"]["assumptions"] = CHECKS["C05"]["assumptions"] + [
     "client half, by composition over single steps from an arbitrary state (one thread): next() yields exactly one reply read while "
     "the call's continues flag is set and reads nothing and ends once it is clear (c05_next); more() arms the flag, sends exactly one "
